@@ -937,6 +937,12 @@ func (x *Exec) cutLoopHeader(fr *frame, l *loopInfo, st *State) {
 		st.Env[phi] = nv
 		x.assume(st, x.wf(nv, x.C.Fresh("alloc.any", IntSort)))
 	}
+	// ghost variables of the verified function: a call inside the loop may set them
+	for name, gk := range x.ghostKeys {
+		if old, ok := st.Env[gk]; ok && len(old.L) == 1 {
+			st.Env[gk] = Value{T: old.T, L: []*Term{x.C.Fresh("loop$ghost$"+name, old.L[0].Sort)}}
+		}
+	}
 	mods, all := x.loopWrites(fr.fn, l)
 	if all {
 		for k := range st.Heap.comps {
